@@ -73,6 +73,7 @@ func TestVerifSymLookup(t *testing.T) {
 		t.Fatal(err)
 	}
 	var names []string
+	truths := map[string]uintptr{}
 	present := map[string]bool{}
 	var sect *elf.Section
 	for _, s := range f.Sections {
@@ -103,6 +104,7 @@ func TestVerifSymLookup(t *testing.T) {
 				}
 				present[fn.Name] = true
 				names = append(names, fn.Name)
+				truths[fn.Name] = truth
 				a, ok := lookupF(fn.Name)
 				emit("func", "present", fn.Name, ok, int64(a)-int64(truth))
 			}
@@ -121,6 +123,18 @@ func TestVerifSymLookup(t *testing.T) {
 			emit("func", "absent", bad, ok, int64(a))
 		}
 	}
+	// the answers must not depend on what was looked up before: after the absent names and at the very end, a sample of
+	// the present functions is looked up again, in reverse order, each right after a miss on a near-miss of its name
+	again := func() {
+		for i := len(names) - 1; i >= 0; i -= 7 {
+			n := names[i]
+			lookupF(n + "x")
+			a, ok := lookupF(n)
+			emit("func", "present", n, ok, int64(a)-int64(truths[n]))
+		}
+	}
+	again()
+	defer again()
 	for _, typ := range vars.UETypes {
 		for n := 1; n <= 2; n++ {
 			name := vars.Name(typ, n)
